@@ -132,8 +132,11 @@ def begun (m : Except Err MComp) (s : SComp) (P : Nat) : DState × String :=
   | .error e => (⟨none, none, P⟩, both ("err " ++ showErr e))
 
 def dstep (st : DState) (line : String) : DState × String :=
-  let toks := splitNonEmpty line " "
+  -- `cls=…` / `syn=…` name the real class for the harness; `step` / `run` only concern the real objects
+  let toks := (splitNonEmpty line " ").filter fun t => ! (t.startsWith "cls=" || t.startsWith "syn=")
   match toks with
+  | ["step", _] => (st, both "ok")
+  | ["run", _, _] => (st, both "ok")
   | "syn" :: rest =>
     match parseSynCfg? rest with
     | some (c, P) => begun (MComp.newSyn .syn c P) (.syn (Synapse.construct ratOps c)) P
